@@ -227,6 +227,10 @@ func collectionSizeNegative(size int) error {
 	return fmt.Errorf("expected collection size >= 0, got: %d", size)
 }
 
+func collectionElementTooLarge(size, max int) error {
+	return fmt.Errorf("collection element too large (%d bytes, max is %d)", size, max)
+}
+
 func collectionElementNil() error {
 	return fmt.Errorf("nil is not supported inside collections")
 }
